@@ -82,6 +82,36 @@ def m_from_residual(ex, callee, args, ret_ty, frame):
     return NOT_HANDLED
 
 
+def m_ok_or_else(ex, callee, args, ret_ty, frame):
+    v = args[0]
+    if not isinstance(v, VAdt):
+        return NOT_HANDLED
+    i = adt_variant(ex, v, "ok_or_else")
+    rt = norm_ty(ret_ty) if ret_ty else "Result"
+    if i == 1:
+        return VAdt(rt, 0, {0: [ex.adt_fields(v, 1)[0]]}, ex.new_vid())
+    fn = args[1]
+    if isinstance(fn, VFn):
+        f = ex.P.resolve(fn.name)
+        e = ex.run_function(f, [], 3) if f is not None else ex.havoc(norm_ty(fn.name), [], ty_args(rt)[1] if len(ty_args(rt)) > 1 else None)
+    else:
+        e = ex.call_closure(fn, [])
+        if e is None:
+            e = ex.havoc("closure(ok_or_else)", [], ty_args(rt)[1] if len(ty_args(rt)) > 1 else None)
+    return VAdt(rt, 1, {1: [e]}, ex.new_vid())
+
+
+def m_checked_arith(ex, callee, args, ret_ty, frame):
+    m = re.match(r"^(?:<impl )?(i8|i16|i32|i64|isize|u8|u16|u32|u64|usize)>?::checked_(add|sub)$", callee)
+    if not m or not all(isinstance(a, VInt) for a in args):
+        return NOT_HANDLED
+    r = ex.int_binop({"add": "AddWithOverflow", "sub": "SubWithOverflow"}[m.group(2)], args[0], args[1])
+    rt = norm_ty(ret_ty) if ret_ty else "Option"
+    if ex.branch_bool(r.items[1].b, "checked_" + m.group(2) + ".overflow"):
+        return mk_option(ex, rt)
+    return mk_option(ex, rt, r.items[0])
+
+
 def m_into(ex, callee, args, ret_ty, frame):
     m = re.match(r"^<(.+) as (Into|TryInto|From|TryFrom)<(.+)>>::(into|try_into|from|try_from)$", callee)
     if not m:
@@ -222,6 +252,16 @@ def m_iter_next(ex, callee, args, ret_ty, frame):
     return mk_option(ex, rt, VRef(it.src.root, it.src.path + (("i", i),), False))
 
 
+def m_iter_rev(ex, callee, args, ret_ty, frame):
+    it = args[0]
+    if not isinstance(it, VIter) or it.kind != "owned":
+        return NOT_HANDLED
+    _need_concrete(it.seq, "rev")
+    rest = [vcopy(x) for x in it.seq.items[it.pos:]]
+    rest.reverse()
+    return VIter(VSeq(it.seq.elem_ty, len(rest), rest, ex.new_vid()), 0, None, "owned")
+
+
 def m_slice_reverse(ex, callee, args, ret_ty, frame):
     seq = deref(ex, args[0])
     if not isinstance(seq, VSeq):
@@ -268,6 +308,9 @@ def m_option_unwrap_or_else(ex, callee, args, ret_ty, frame):
         if f is not None and any(re.search(p, f.name) for p in ex.cfg.get("inline", [])):
             return ex.run_function(f, [], 3)
         return ex.havoc(norm_ty(fn.name), [], ret_ty)
+    r = ex.call_closure(fn, [])
+    if r is not None:
+        return r
     return ex.havoc("closure(unwrap_or_else)", [], ret_ty)
 
 
@@ -295,13 +338,18 @@ def m_option_cloned(ex, callee, args, ret_ty, frame):
 def m_result_map_into(ex, callee, args, ret_ty, frame):
     # Result::<T, E>::map::<U, fn item>(r, f) where f is a From/Into conversion or a constructor
     v = args[0]
-    if not isinstance(v, VAdt) or len(args) < 2 or not isinstance(args[1], VFn):
+    if not isinstance(v, VAdt) or len(args) < 2:
         return NOT_HANDLED
     i = adt_variant(ex, v, "Result::map")
     rt = norm_ty(ret_ty) if ret_ty else "Result"
     if i == 1:
         return VAdt(rt, 1, {1: [ex.adt_fields(v, 1)[0]]}, ex.new_vid())
     x = ex.adt_fields(v, 0)[0]
+    if not isinstance(args[1], VFn):
+        r = ex.call_closure(args[1], [x])
+        if r is None:
+            return NOT_HANDLED
+        return VAdt(rt, 0, {0: [r]}, ex.new_vid())
     name = norm_ty(args[1].name)
     r = None
     for pat, fn in BUILTIN:
@@ -390,9 +438,12 @@ BUILTIN = [
     (r"^<impl \[.*\]>::reverse$", m_slice_reverse),
     (r"^<impl \[.*\]>::into_vec", m_vec_from_array),
     (r"^<.+ as IntoIterator>::into_iter$", m_into_iter),
-    (r"^<(IntoIter|Iter|Range)<.*> as Iterator>::next$", m_iter_next),
+    (r"^<(IntoIter|Iter|Range|Rev)<.*> as Iterator>::next$", m_iter_next),
+    (r"^<(IntoIter)<.*> as Iterator>::rev$", m_iter_rev),
     (r"^<(Vec<.*>|\[.*\]) as (Index|IndexMut)<usize>>::(index|index_mut)$", m_vec_index),
     (r"^Option(::)?(<.*>)?::unwrap_or_else", m_option_unwrap_or_else),
+    (r"^Option(::)?(<.*>)?::ok_or_else", m_ok_or_else),
+    (r"::checked_(add|sub)$", m_checked_arith),
     (r"^Option(::)?(<.*>)?::(is_some|is_none)$", m_option_is_some),
     (r"^Option(::)?(<.*>)?::cloned$", m_option_cloned),
     (r"^Result(::)?(<.*>)?::map::", m_result_map_into),
